@@ -1,9 +1,12 @@
 import Traph
-/-! C06 — automatic creation follows the rules. Proved so far, directly on the decision ladder of
-    `__add_page` (for an arbitrary rule table — no assumption on the rule family): nothing is created
-    when the longest candidate is not longer than the existing prefix; the potential-prefix query runs
-    the same ladder read-only. The statement "afterwards the page resolves to max(E,K)" needs the
-    search/insert agreement (Proofs/Shape*, in progress). -/
+import Proofs.AutoCreate
+/-! C06 — automatic creation follows the rules. The decision ladder of `__add_page` for an arbitrary rule table
+    (`C06_ladder`): nothing is created when the longest candidate is not longer than the existing prefix
+    (`C06_covered_creates_nothing`, `C06_post_no_creation`); otherwise one webentity is created and reported,
+    owning K plus the variations not already owned, and the page resolves to it (`C06_post_creation`); the
+    potential-prefix query runs the same ladder read-only (`C06_potential*`). Rule installation on a populated
+    index is covered at the level of pages and attachments by C01/C04 (`addRule` is one of the requests of
+    `C01_pages`, `C04_history_fresh`). -/
 namespace Traph.Props
 open Traph State
 
@@ -42,5 +45,53 @@ theorem C06_potential_rule_wins (s : State) (lru : Bytes) (cand : Bytes) (p : Na
   simp only at hc hp ⊢
   have : ¬ cand.length ≤ p := by omega
   simp [hc, hp, this]
+
+/-! ### after the insertion (Proofs/AutoHist, AutoCreate) -/
+
+/-- the decision ladder in terms of E (= retrieve_prefix before the insertion) and the longest rule proposal: K ≤ E creates nothing, K > E creates for K, E absent: the rule proposal if any, else the default rule -/
+theorem C06_ladder {s : State} {t : T} (h : Shape s t) (lru : Bytes) (hne : lruIter lru ≠ []) (cand : Bytes)
+    (hc : s.longestCandidate lru (s.followLru (lruIter lru)).2 = some cand) :
+    (∀ E, s.retrievePrefix lru = .ok E →
+      (cand.length ≤ E.length → s.autoPlan lru = some none) ∧
+      (E.length < cand.length → s.autoPlan lru = some (some cand))) ∧
+    (∀ e, s.retrievePrefix lru = .error e →
+      (cand ≠ [] → s.autoPlan lru = some (some cand)) ∧
+      (cand = [] → s.autoPlan lru =
+        match s.dflt.search lru with
+        | none => some none
+        | some k => if k.isEmpty then some none else some (some k))) :=
+  Traph.autoPlan_cases h lru hne cand hc
+
+/-- nothing to create: nothing reported, the attachment map and the page's resolution are unchanged (the page resolves to E) -/
+theorem C06_post_no_creation {s : State} {t : T} (h : Shape s t) (lru : Bytes) (c : Bool)
+    (hne : lruIter lru ≠ []) (hp : s.autoPlan lru = some none) :
+    (∃ r, (s.addPageCore lru c).2.2 = .ok r ∧ r.we = []) ∧
+    (s.addPageCore lru c).1.weMap = s.weMap ∧
+    (s.addPageCore lru c).1.retrievePrefix lru = s.retrievePrefix lru ∧
+    (s.addPageCore lru c).1.retrieveWebentity lru = s.retrieveWebentity lru :=
+  Traph.C06_post_no_creation h lru c hne hp
+
+/-- creation: exactly one webentity is reported, with a fresh id, owning K and every scheme/www variation of K not already owned; afterwards the page resolves to that webentity; its defining prefix is K unless a variation of K is itself a longer stem-prefix of the page (page `…|h:a|h:www|p:x|` under K = `…|h:a|`), in which case it is that variation: the literal reading `retrieve_prefix = K` is false there (witness in Proofs/AutoCreate) -/
+theorem C06_post_creation {s : State} {t : T} (h : Shape s t) (lru : Bytes) (c : Bool)
+    (hne : lruIter lru ≠ []) {K : Bytes} (hp : s.autoPlan lru = some (some K))
+    {k : Nat} (hk0 : 0 < k) (hkl : k ≤ (lruIter lru).length) (hK : K = ((lruIter lru).take k).flatten) :
+    (∃ r, (s.addPageCore lru c).2.2 = .ok r ∧
+      r.we = [(some (s.hdrId + 1), freeOf s.weMap (lruVariations K))]) ∧
+    K ∈ freeOf s.weMap (lruVariations K) ∧
+    (∀ p, p ∈ freeOf s.weMap (lruVariations K) ↔ p ∈ lruVariations K ∧ s.weMap (lruIter p) = 0) ∧
+    (s.addPageCore lru c).1.weMap = mapAttach s.weMap ((lruVariations K).map lruIter) (s.hdrId + 1) ∧
+    (s.addPageCore lru c).1.retrieveWebentity lru = .ok (s.hdrId + 1) ∧
+    ((∀ v ∈ lruVariations K, ∀ j, k < j → j ≤ (lruIter lru).length → lruIter v ≠ (lruIter lru).take j) →
+      (s.addPageCore lru c).1.retrievePrefix lru = .ok K) :=
+  Traph.C06_post_creation h lru c hne hp hk0 hkl hK
+
+/-- `get_potential_prefix` returns the same max(E,K) as the ladder, read-only -/
+theorem C06_potential {s : State} {t : T} (h : Shape s t) (lru : Bytes) (hne : lruIter lru ≠ []) :
+    (∀ K, s.autoPlan lru = some (some K) → s.potentialPrefix lru = .ok (some K)) ∧
+    (s.autoPlan lru = some none →
+      (∀ E, s.retrievePrefix lru = .ok E → s.potentialPrefix lru = .ok (some E)) ∧
+      (∀ e, s.retrievePrefix lru = .error e → s.potentialPrefix lru = .ok none)) ∧
+    (s.autoPlan lru = none → s.potentialPrefix lru = .error (.other "KeyError")) :=
+  Traph.C06_potential h lru hne
 
 end Traph.Props
